@@ -56,12 +56,37 @@ def run_dyn(ctx, name, defs, n):
     ctx.cov['oracle_violations'] = ctx.cov.get('oracle_violations', 0) + nor
     ctx.cov['input_distribution'][name] = {'cases': len(cases), 'programs': DPROGS}
 
+BPPROGS = ['(r)/(q)(r)(q)(r)/SSS', '(r)(q)/(r)/(q)(r)(q)/SS', '(q)/(r)(r)/S/S(q)', '(r)/(q)/(r)/(q)/SSS']      # bp: a thread registers on first use and leaves when its program ends
+def run_bp(ctx, n):
+    impl = G.build(ctx, 'scen_sig_bp_dyn', ['-DFLAVOR_BP'], 'scen_sig.c')
+    if not impl: return
+    cases = []
+    for prog in BPPROGS[:3 if ctx.quick() else len(BPPROGS)]:
+        th = [str(i) for i in range(prog.count('/') + 1)]
+        for v in th:
+            for point in range(1, 40 if ctx.quick() else 80, 2): cases.append((prog, parking(th, point, 1, v, 1)))
+    while len(cases) < n:
+        prog = ctx.rng.choice(BPPROGS); th = [str(i) for i in range(prog.count('/') + 1)]
+        cases.append((prog, bursty(ctx.rng, th, lo=60, hi=500, flush=ctx.rng.choice([0.0, 0.05, 0.3]), means=(1, 3, 10, 30, 60))))
+    tail = ''.join(chr(ord('a') + i) + str(i) for i in range(6)) * 400
+    rs = run_many([[impl, p, s + tail] for p, s in cases], timeout=20); nor = 0
+    for (p, s), (rc, raw) in zip(cases, rs):
+        abnormal = [w for w in ('DEADLOCK', 'STEP LIMIT', 'ABORT', 'BUG ', 'TIMEOUT') if w in raw]
+        o = ('abnormal run (%s): %s' % (abnormal[0], raw[-300:])) if abnormal else G.oracle(p, s, None, raw)
+        if o:
+            nor += 1
+            if nor <= 3: ctx.fail('oracle', 'grace-period oracle, bp flavor with threads coming and going', o, concrete={'scenario': 'scen_sig_bp_dyn', 'prog': p, 'schedule': s + tail, 'verdict': o})
+    ctx.cov['evaluations'] += len(cases); ctx.cov['distinct_nontrivial'] += len(set(hash(r[1]) for r in rs))
+    ctx.cov['oracle_violations'] = ctx.cov.get('oracle_violations', 0) + nor
+    ctx.cov['input_distribution']['scen_sig_bp_dyn'] = {'cases': len(cases), 'programs': BPPROGS}
+
 def run(ctx):
     ctx.cov['source_hash'] = source_hash(FILES)
     prove(ctx)
     n = 400 if ctx.quick() else 5000
     run_dyn(ctx, 'scen_gp_dyn_memb', [], n)
     run_dyn(ctx, 'scen_gp_dyn_mb', ['-DFLAVOR_MB'], n // 2)
+    run_bp(ctx, n // 2)
     from props import C15seq
     C15seq.run(ctx)
     return finish(ctx, trusted=TRUSTED, rule='threads register and unregister (scheduled operations) while 2-3 grace periods run: targeted schedules (reader inside a section while the updater waits, a third thread '
@@ -69,6 +94,9 @@ def run(ctx):
 def replay(ctx, rp):
     f = rp.get('failing_input') or {}
     if not f or 'prog' not in f: print(json.dumps(f, indent=1)); return run(ctx)
+    if f['scenario'] == 'scen_sig_bp_dyn':
+        impl = G.build(ctx, 'scen_sig_bp_dyn', ['-DFLAVOR_BP'], 'scen_sig.c'); rc, out = run_many([[impl, f['prog'], f['schedule']]], timeout=20)[0]
+        print(out[-3000:]); o = G.oracle(f['prog'], f['schedule'], None, out); print('verdict:', o or 'no violation'); return 1 if o else 0
     impl = G.build(ctx, f['scenario'], ['-DDYNREG'] + (['-DFLAVOR_MB'] if f['scenario'].endswith('mb') and 'memb' not in f['scenario'] else []))
     rc, out = run_many([[impl, f['prog'], f['schedule']]], timeout=20)[0]
     print(out[-3000:]); o = G.oracle(f['prog'], f['schedule'], None, out); print('verdict:', o or 'no violation'); return 1 if o else 0
